@@ -16,12 +16,13 @@ CONFIGS = {
     "sharedscalers": ("seeded/C01_shared_scaler_instances", {"RestoredModelsIndependent", "ResavedScalerIsOwn"}, ["PredSameAfterReload", "ReserialisesToSameDocument"]),
     "handoutcache": ("seeded/C02_baseline_prediction_handed_out_by_reference", {"HandOutsAreCopies"}, ["PredSameAcrossHistory"]),
     "coarsememo": ("seeded/C03_fitting_settings_memo, seeded/C16_error_metrics_memo_survives_refit", {"FitDependsOnItsOwnData"}, ["FitJsonSameAcrossFits", "ReportedStatisticsAreThoseOfTheLastFit"]),
+    "classmaps": ("seeded/C13_class_level_combo_dictionary", {"RoutesWithItsOwnMaps"}, ["EachDayPredictedByTheSubModelOfItsCell"]),
     "rejectwipes": ("seeded/C04_refit_wipes_dq", {"GateSurvivesStorage", "StoredDqIsModelDq"}, ["PredictGate"]),
 }
-OWNER = {"C01": ["repaired", "sharedscalers"], "C02": ["repaired", "nocopy", "noclusters", "handoutcache"], "C03": ["repaired", "coarsememo"],
+OWNER = {"C01": ["repaired", "sharedscalers"], "C02": ["repaired", "nocopy", "noclusters", "handoutcache", "classmaps"], "C03": ["repaired", "coarsememo"],
          "C04": ["repaired", "norefresh", "rejectwipes"]}
 THEOREMS = {"DataImmutable", "PredictPure", "FitRepeatable", "PredStable", "StoredDqIsModelDq", "GateSurvivesStorage",
-            "RestoredModelsIndependent", "ResavedScalerIsOwn", "HandOutsAreCopies", "FitDependsOnItsOwnData"}
+            "RestoredModelsIndependent", "ResavedScalerIsOwn", "HandOutsAreCopies", "FitDependsOnItsOwnData", "RoutesWithItsOwnMaps"}
 
 
 def run(prop):
@@ -59,7 +60,7 @@ def _run(prop):
                                 "theorems_violated": sorted(violated), "rejecting_clauses_on_real_code_when_reverted": clauses}
         states += res.distinct
         trans += res.generated
-    out["note"] = ("with every repair on and every hazard off (the current tree) all ten theorems hold over all histories of <= 5 calls on 2 slots "
+    out["note"] = ("with every repair on and every hazard off (the current tree) all eleven theorems hold over all histories of <= 5 calls on 2 slots "
                    "(two documents of an earlier process in the store); with one repair off / one hazard on TLC returns minimal histories violating the "
                    "listed theorems (repairs: replayed on the real code by tools/try_revert.sh; hazards: by the seeded change named, tools/regress_seeded.sh)")
     return out, states, trans
